@@ -164,11 +164,39 @@ FViol(ev, r, ln) ==
         \* a SHORT write is no failure of the output at all (the system took a part, the rest can be offered again): an output
         \* that was closed normally after one, without any exception, and is not a complete document also violates C02
         ELSE <<[l |-> ln, prop |-> IF ev.fault = "short" /\ \E x \in Range(ev.outs) : /\ x.final /\ ~x.old /\ x.o \in w.unrep
-                                                                                      /\ (~x.stream_ok \/ x.fin \notin {"eof", "empty"})
+                                                                                      /\ (~x.stream_ok \/ (sc.target # "writer" /\ x.fin \notin {"eof", "empty"}))
                                    THEN "C16,C02" ELSE "C16",
                 ctx |-> Ctx(r), k |-> ev.k, kind |-> sc.kind, comp |-> sc.comp, target |-> sc.target,
                 fault |-> ev.fault, persistent |-> ev.persistent, phase |-> FaultPhase(ev.log), symptom |-> "unreported",
                 what |-> "rotate_output returned normally for an output that lost bytes and no API call had thrown", outputs |-> w.unrep]>>)
+    \* a single fault that no API call reported - neither a call on the output it hit nor the rotation that closed that output
+    \* (it was swallowed, or hit an output whose stream state is never looked at): the outputs opened AFTER that rotation
+    \* meet no fault at all, so no call on them fails and each is a complete stream with exactly its content
+    \o (LET sysf == {i \in 1..Len(ev.log) : ev.log[i].t = "sys" /\ ev.log[i].r \in {"fail", "short"}}
+            plain == \A i \in 1..Len(sc.steps) : "to" \notin DOMAIN sc.steps[i] /\ sc.steps[i].op \notin {"rotbad", "recover"}
+        IN IF ev.persistent \/ sysf = {} \/ ~plain THEN <<>>
+           ELSE LET f0  == CHOOSE i \in sysf : \A j \in sysf : i <= j
+                    fo  == ev.log[f0].o
+                    rots == {i \in (f0 + 1)..Len(ev.log) : ev.log[i].t = "api" /\ ev.log[i].c = "rot"}
+                IN IF rots = {} THEN <<>>
+                   ELSE LET R == CHOOSE i \in rots : \A j \in rots : i <= j
+                            excBefore == \E i \in 1..R : ev.log[i].t = "api" /\ ev.log[i].r # "ok"
+                            excAfter  == \E i \in (R + 1)..Len(ev.log) : ev.log[i].t = "api" /\ ev.log[i].r # "ok"
+                            exp == IF sc.target = "writer"
+                                   THEN ExpW(sc.steps, {sc.chunks[i].id : i \in {j \in 1..Len(sc.chunks) : sc.chunks[j].n = 0}}, 1, <<>>, <<>>)
+                                   ELSE <<>>
+                            bad == IF ev.status # 0 THEN {} ELSE
+                                   {x \in Range(ev.outs) : /\ x.final /\ ~x.old /\ x.o > fo
+                                                           /\ \/ ~x.stream_ok
+                                                              \/ sc.target = "writer" /\ (x.rest # 0 \/ (x.o <= Len(exp) /\ x.chunks # exp[x.o]))
+                                                              \/ sc.target # "writer" /\ x.fin \notin {"eof", "empty"}}
+                        IN IF excBefore \/ (~excAfter /\ bad = {} /\ ev.status = 0) THEN <<>>
+                           ELSE <<[l |-> ln, prop |-> "C14,C16", ctx |-> Ctx(r), k |-> ev.k, kind |-> sc.kind, comp |-> sc.comp, target |-> sc.target,
+                                   fault |-> ev.fault, persistent |-> ev.persistent, phase |-> FaultPhase(ev.log), symptom |-> "later_output_corrupt",
+                                   what |-> IF ev.status # 0 THEN "after a single, unreported output fault and a successful rotation the calls on the new output do not terminate / the process dies"
+                                            ELSE IF excAfter THEN "after a single, unreported output fault and a successful rotation a call on the new output (which met no fault) failed"
+                                            ELSE "after a single, unreported output fault an output opened later (which met no fault) is not a complete stream holding what was written to it",
+                                   outs |-> bad]>>)
     \o (IF ~(hasRecover /\ w.blockExc /\ sc.target = "exporter") THEN <<>>
         ELSE IF recApi # {} THEN
              <<[l |-> ln, prop |-> "C16", ctx |-> Ctx(r), k |-> ev.k, kind |-> sc.kind, comp |-> sc.comp, target |-> sc.target,
